@@ -363,8 +363,8 @@ func init() {
 			a := ats[c.Free(len(ats), "location")]
 			orig := r.Index[a.e].Locations[a.l]
 			respLen := r.Sections[len(r.Sections)-1].Length
-			type ol struct{ o, l uint64 }
-			alts := []ol{
+			type ol2 struct{ o, l uint64 }
+			alts := []ol2{
 				{orig.Offset + 1<<63, orig.Length + 1<<63}, // sum wraps to the original sum
 				{1<<64 - 1, orig.Length + 1},               // sum wraps to orig.Length
 				{-orig.Length, orig.Length},                // sum wraps to 0
@@ -378,6 +378,16 @@ func init() {
 				{orig.Offset, 1<<63 - 1},
 				{1 << 63, orig.Length},
 				{orig.Offset, orig.Length - 1},
+			}
+			// an entry that reuses ANOTHER entry's offset with a different length (a reader that
+			// caches decoded responses by offset would hand out the other entry's content)
+			for oi, oe := range r.Index {
+				for ol, other := range oe.Locations {
+					if oi == a.e && ol == a.l {
+						continue
+					}
+					alts = append(alts, ol2{other.Offset, other.Length - 1}, ol2{other.Offset, 1}, ol2{other.Offset, 0}, ol2{other.Offset, other.Length + orig.Length}, ol2{other.Offset, other.Length})
+				}
 			}
 			alt := alts[c.Free(len(alts), "value")]
 			entries := make([]refbx.IndexEntry, len(r.Index))
